@@ -146,28 +146,39 @@ EXPORT char *_gets_s_chk(char *restrict dest, rsize_t dmax,
     }
 
     errno = 0;
-    ret = fgets(dest, dmax + 1, stdin);
+    /* fgets stores at most dmax bytes, including the terminating null */
+    ret = fgets(dest, dmax, stdin);
 
     if (likely(ret)) {
         rsize_t len = (rsize_t)strnlen(dest, dmax);
         if (len > 0 && dest[len - 1] == '\n') {
             dest[len - 1] = 0;
-        } else if (len > (rsize_t)(dmax - 1)) {
-            ret = NULL;
-            goto nospc;
-        } else if (feof(stdin)) /* dead code: feof returns NULL */
-            ;
-        else if (len == (rsize_t)(dmax - 1) && dest[len] == '\0') {
-            ret = NULL;
-            goto nospc;
+            len--;
+        } else if (len == (rsize_t)(dmax - 1) && !feof(stdin)) {
+            /* dest is full: the line still fits if it ends right here */
+            int c = getc(stdin);
+            if (c == EOF && len == 0) {
+                ret = NULL; /* end-of-file and nothing read */
+            } else if (c != '\n' && c != EOF) {
+                /* too long. as before, dmax characters of it are consumed */
+                ret = NULL;
+                goto nospc;
+            }
         }
+#ifdef SAFECLIB_STR_NULL_SLACK
+        memset(&dest[len], 0, dmax - len);
+#endif
     } else {
         if (!feof(stdin) && errno == 0) { /* closed? */
         nospc:
             handle_error(dest, dmax, "gets_s: length exceeds dmax", ESNOSPC);
             errno = ESNOSPC;
+        } else {
+            /* end-of-file or a read error: dest is the empty string */
 #ifdef SAFECLIB_STR_NULL_SLACK
             memset(dest, 0, dmax);
+#else
+            *dest = '\0';
 #endif
         }
     }
